@@ -273,7 +273,7 @@ var ttRoots = []searchRoot{
 func checkC11(c *harness.Check) {
 	mustAnchors(c)
 	sizes := []uint64{32, 64, 512, 32768, 1 << 20}
-	c.Rule = fmt.Sprintf("roots with position-determined evaluation and exploration (static material leaf; captures-only quiescence over material) whose trees cannot contain a repetition or fifty-move draw x depth <= D x table sizes %v bytes x sequences of searches sharing ONE table (iterative deepening 1..d then d again; the same root at d,d,d-1,d; successive positions of a game along the PV). Oracle per search: score == score without table == reference minimax; PV non-empty and its first move attains the reference value; EVERY ExactBound store (hash mapped back to its position through the Exploration/QuietSearch seams) equals the reference value of that position at that depth. distinct_nontrivial = distinct (position, depth) pairs of validated exact entries", sizes)
+	c.Rule = fmt.Sprintf("roots with position-determined evaluation and exploration (static material leaf; captures-only quiescence over material) whose trees cannot contain a repetition or fifty-move draw x depth <= D x table sizes %v bytes x sequences of searches sharing ONE table (iterative deepening 1..d then d again; the same root at d,d,d-1,d; successive positions of a game along the PV). Oracle per search: score == score without table == reference minimax; PV non-empty and its first move attains the reference value; EVERY ExactBound store (hash mapped back to its position through the Exploration/QuietSearch seams) equals the reference value of that position at that depth. plus a single-bit key probe: an entry stored under h is never returned for h with any one of its 64 bits flipped (all table sizes). distinct_nontrivial = distinct (position, depth) pairs of validated exact entries", sizes)
 	var cases []c11case
 	for _, r := range ttRoots {
 		max := c.Pick(3, 4)
@@ -320,6 +320,23 @@ func checkC11(c *harness.Check) {
 		c.Distinct(k)
 	}
 	vm.mu.Unlock()
+	// the table must tell apart hashes that differ in ANY single bit (a truncated stored key would
+	// serve one position's entry for another): store under h, look up h with one bit flipped
+	for _, size := range append([]uint64{1 << 26}, sizes...) {
+		tt := search.NewTranspositionTable(ctx, size)
+		for _, h := range []board.ZobristHash{0x0123456789abcdef, 0xffffffffffffffff, 0x8000000000000001} {
+			tt.Write(h, search.ExactBound, 9, 9, eval.HeuristicScore(1), board.Move{From: board.E2, To: board.E4})
+			if _, _, _, _, ok := tt.Read(h); !ok {
+				continue // replaced or not stored: nothing to tell apart
+			}
+			for k := 0; k < 64; k++ {
+				c.Evaluations.Add(1)
+				if _, d, sc, _, ok := tt.Read(h ^ 1<<uint(k)); ok {
+					c.Violation(fmt.Sprintf("C11/foreign-hit size=%d bit=%d", size, k), fmt.Sprintf("table of %d bytes: an entry stored under hash %x is returned (depth %d, %v) for hash %x which differs in bit %d", size, uint64(h), d, sc, uint64(h^1<<uint(k)), k), "C11/note", k)
+				}
+			}
+		}
+	}
 	// degenerate sizes must not crash
 	for _, size := range []uint64{0, 1, 16, 31} {
 		func() {
